@@ -78,7 +78,7 @@ def run(ctx):
             ctx.add_mc(r, 'MPSwitchGen %s N=%d' % (st['name'], n))
             cfgs = [json.loads(x) for x in progs_from(r)]
             if st['scheme'] == 'ckks':
-                cfgs = [c for c in cfgs if c['f'] not in ('coef', 'id')]
+                cfgs = [c for c in cfgs if c['f'] not in ('coef', 'id', 'permdec', 'permenc')]
             if st['name'] != 'bgv97' and st['name'] != 'ckks':
                 # secondary sets: thinner
                 cfgs = cfgs[ctx.seed % 3::3]
